@@ -270,29 +270,33 @@ def sym_getitem(d, key):
 
 
 def sym_int(x):
+    """int(text): ASCII digit strings become a z3 term; text containing a
+    character int() rejects raises ValueError like the real int(); the few other
+    inputs int() accepts ('_' separators, surrounding blanks, non-ASCII digits)
+    are not modelled (HarnessError).  Decisions depend only on the text, never on
+    a solver model, so replays are deterministic."""
     if isinstance(x, SymText):
         digits = IntervalSet([(48, 57)])
         n = len(x)
         if n == 0:
             raise ValueError("invalid literal for int() with base 10: ''")
-        if all(x.test(j, digits) for j in range(n)):
-            eng = E.cur()
-            doms = [eng.current_dom((x.base.name, x.start + j)) for j in range(n)]
-            if all(d.size() == 1 for d in doms):
-                return int("".join(chr(d.min()) for d in doms))
-            e = z3.IntVal(0)
-            for j in range(n):
-                e = e * 10 + (x.cp(j) - 48)
-            return SymInt(z3.simplify(e))
-        # anything else: concretise the text and let the real int() decide
+        from .sremodel import category
+
+        special = (category("CATEGORY_DIGIT") - digits) | iset_of_chars("_") | category("CATEGORY_SPACE")
+        all_digits = True
+        for j in range(n):
+            if x.test(j, digits):
+                continue
+            all_digits = False
+            if x.test(j, special):
+                raise E.HarnessError("int() of text with '_', blanks or non-ASCII digits is not modelled")
+            raise ValueError("invalid literal for int() with base 10")
         eng = E.cur()
         doms = [eng.current_dom((x.base.name, x.start + j)) for j in range(n)]
         if all(d.size() == 1 for d in doms):
             return int("".join(chr(d.min()) for d in doms))
-        m = eng.model()
-        s = x.concrete(m)
-        for j, ch in enumerate(s):
-            if not x.test(j, iset_of_chars(ch)):
-                raise E.HarnessError("sym_int: could not concretise")
-        return int(s)
+        e = z3.IntVal(0)
+        for j in range(n):
+            e = e * 10 + (x.cp(j) - 48)
+        return SymInt(e)
     return int(x)
